@@ -40,6 +40,37 @@ const variantOf = (res) => (res.diagnostics?.[0] ? res.diagnostics[0].variant : 
 
 export const PROBES = [
   {
+    id: "export-list-exports-type-and-value",
+    single: 'const A = { y: 1 } as const;\ntype A = { x: string };\nexport const Parsers = parse.buildParsers<{ P: { t: A; v: typeof A } }>();\n',
+    files: { "entry.ts": 'import { A } from "./a";\nexport const Parsers = parse.buildParsers<{ P: { t: A; v: typeof A } }>();\n', "a.ts": 'const A = { y: 1 } as const;\ntype A = { x: string };\nexport { A };\n' },
+    value: { $obj: "plain", fields: [["t", { $obj: "plain", fields: [["x", "s", 1]] }, 1], ["v", { $obj: "plain", fields: [["y", 1, 1]] }, 1]] },
+  },
+  {
+    id: "default-import-passed-on-by-an-export-list",
+    single: "type DD = { z: 1 };\nexport const Parsers = parse.buildParsers<{ P: DD }>();\n",
+    files: { "entry.ts": 'import { D } from "./a";\nexport const Parsers = parse.buildParsers<{ P: D }>();\n', "a.ts": 'import D from "./d";\nexport { D };\n', "d.ts": "type DD = { z: 1 };\nexport default DD;\n" },
+    value: { $obj: "plain", fields: [["z", 1, 1]] },
+  },
+  {
+    id: "enum-exported-through-a-list-used-as-value",
+    single: 'enum E { M = "m" }\nexport const Parsers = parse.buildParsers<{ P: { t: E; v: typeof E.M } }>();\n',
+    files: { "entry.ts": 'import { E } from "./a";\nexport const Parsers = parse.buildParsers<{ P: { t: E; v: typeof E.M } }>();\n', "a.ts": 'enum E { M = "m" }\nexport { E };\n' },
+    value: { $obj: "plain", fields: [["t", "m", 1], ["v", "m", 1]] },
+  },
+  {
+    id: "typeof-namespace-with-export-star",
+    single: 'const ns = { x: 1, y: "s" };\nexport const Parsers = parse.buildParsers<{ P: typeof ns }>();\n',
+    files: { "entry.ts": 'import * as ns from "./a";\nexport const Parsers = parse.buildParsers<{ P: typeof ns }>();\n', "a.ts": 'export const x = 1;\nexport * from "./b";\n', "b.ts": 'export const y = "s";\n' },
+    value: { $obj: "plain", fields: [["x", 1, 1], ["y", "s", 1]] },
+    alsoRejects: { $obj: "plain", fields: [["x", 1, 1]] },
+  },
+  {
+    id: "type-parameter-named-like-a-type-of-another-file",
+    single: "type Data0 = string;\ntype Meta = { d: Data0 };\ntype Wrapper<Data> = { data: Data; meta: Meta };\nexport const Parsers = parse.buildParsers<{ P: Wrapper<number> }>();\n",
+    files: { "entry.ts": 'import { Meta } from "./meta";\ntype Wrapper<Data> = { data: Data; meta: Meta };\nexport const Parsers = parse.buildParsers<{ P: Wrapper<number> }>();\n', "meta.ts": "type Data = string;\nexport type Meta = { d: Data };\n" },
+    value: { $obj: "plain", fields: [["data", 1, 1], ["meta", { $obj: "plain", fields: [["d", "text", 1]] }, 1]] },
+  },
+  {
     id: "import-type-with-arguments",
     single: 'type Loc = { l: 1 };\ntype G<X> = { value: X };\nexport const Parsers = parse.buildParsers<{ P: G<Loc> }>();\n',
     files: { "entry.ts": 'type Loc = { l: 1 };\nexport const Parsers = parse.buildParsers<{ P: import("./g").G<Loc> }>();\n', "g.ts": "export type G<X> = { value: X };\n" },
@@ -139,6 +170,7 @@ export async function run(ctx) {
       ctx.count("probes");
       if (!a.parsers) throw new Error("C09 probe: single-file program does not compile: " + p.id);
       if (!b.parsers) ctx.violation({ signature: `split-project-rejected|${variantOf(b.res)}|probe:${p.id}`, clause: "outcome-differs", detail: `${p.id}: ${JSON.stringify(b.res.diagnostics?.[0]?.message ?? b.res.outcome)}`, replay: { kind: "split", single: p.single, files: p.files, collision: null } });
+      else if (p.alsoRejects && verdicts(a.parsers.P, [fromEjson(p.alsoRejects)])[0] !== verdicts(b.parsers.P, [fromEjson(p.alsoRejects)])[0]) ctx.violation({ signature: `verdicts-differ|probe:${p.id}|second-value`, clause: "validators-differ", detail: p.id, replay: { kind: "split", single: p.single, files: p.files, collision: null, parser: "P", value: p.alsoRejects } });
       else if (verdicts(a.parsers.P, [fromEjson(p.value)])[0] !== verdicts(b.parsers.P, [fromEjson(p.value)])[0]) ctx.violation({ signature: `verdicts-differ|probe:${p.id}`, clause: "validators-differ", detail: p.id, replay: { kind: "split", single: p.single, files: p.files, collision: null, parser: "P", value: p.value } });
     }
   }
